@@ -9,9 +9,9 @@ use vcore::num::EPS;
 use vcore::{json, Check, Outcome, Report, Tier, Value};
 
 // ------------------------------------------------------------------ (a) editing histories, explicit-state BFS
-const VALS: [f64; 5] = [0.0, 1.0, -2.0, 3e-11, 1e-9];
+const VALS: [f64; 6] = [0.0, 1.0, -2.0, 3e-11, 1e-9, 1e-10];
 /// complex field: the same real values plus purely imaginary / mixed ones around the zero tolerance
-const CVALS: [(f64, f64); 9] = [(0.0, 0.0), (1.0, 0.0), (-2.0, 0.0), (3e-11, 0.0), (1e-9, 0.0), (0.0, 2.0), (3e-11, 1e-9), (1e-11, -2e-11), (0.0, -3e-11)];
+const CVALS: [(f64, f64); 11] = [(0.0, 0.0), (1.0, 0.0), (-2.0, 0.0), (3e-11, 0.0), (1e-9, 0.0), (0.0, 2.0), (3e-11, 1e-9), (1e-11, -2e-11), (0.0, -3e-11), (1e-10, 0.0), (-1e-10, 1e-10)];
 const TOL: f64 = 1e-10;
 
 #[derive(Clone, Debug, PartialEq, Eq, Hash, Serialize, Deserialize)]
@@ -370,7 +370,7 @@ impl Check for Editing {
         "editing-histories"
     }
     fn rule(&self) -> String {
-        "stateright BFS over real Polynomial<f64> and Polynomial<Complex<f64>> values: (1) set/purge/purge_leading fragment explored to closure (powers 0..=4, purge 0..=6, 5 values incl. one below and one above the zero tolerance), (2) all 61 actions incl. scalar arithmetic, += x, -= x^2, derivative, antiderivative, negation, slice round trip, depth-bounded from 5 initial polynomials, (3) every ownership form (owned/borrowed on either side, assigning) of polynomial +, -, * against operands of order 0, 1, 3 and of the scalar operators, depth-bounded from 6 initial polynomials of order 0..4; every transition is a one-step conformance check of all observables against a coefficient-map reference; run with 16 threads and with 1 thread, counts must agree; signature = (model, unique states, depth)".into()
+        "stateright BFS over real Polynomial<f64> and Polynomial<Complex<f64>> values: (1) set/purge/purge_leading fragment explored to closure (powers 0..=4, purge 0..=6, 6 values incl. one below, one above and one exactly at the zero tolerance), (2) all 61 actions incl. scalar arithmetic, += x, -= x^2, derivative, antiderivative, negation, slice round trip, depth-bounded from 5 initial polynomials, (3) every ownership form (owned/borrowed on either side, assigning) of polynomial +, -, * against operands of order 0, 1, 3 and of the scalar operators, depth-bounded from 6 initial polynomials of order 0..4; every transition is a one-step conformance check of all observables against a coefficient-map reference; run with 16 threads and with 1 thread, counts must agree; signature = (model, unique states, depth)".into()
     }
     fn axes(&self, t: Tier) -> Value {
         json!({"values": VALS, "zero_tolerance": TOL, "complex_values": format!("{:?}", CVALS), "models": [{"name":"set-purge-closure","depth":"closure","fields":"f64 and Complex<f64>"},{"name":"all-actions","actions_per_history_f64": t.pick(4,5), "actions_per_history_complex": t.pick(3,4)},{"name":"operator-forms","actions_per_history": t.pick(2,3)}], "boundary": "order <= 7, |coefficient| <= 64"})
